@@ -42,6 +42,58 @@ def _run_one(args):
                 'functions': {}, 'assumptions': [], 'notes': [], 'kind': 'proof', 'aborted_paths': 0, 'doc': ''}
 
 
+HARD_LIMIT_S = {'quick': 420, 'thorough': 2400}
+
+
+def _child(conn, prop, idx):
+    try:
+        conn.send(_run_one((prop, idx)))
+    finally:
+        conn.close()
+
+
+def _run_watchdog(prop, idxs, hs, jobs, limit):
+    """One process per harness, at most `jobs` at a time, each killed after `limit` seconds (z3 does not always honour its own
+    timeout): a killed harness is reported UNDECIDED, never as a violation."""
+    ctxm = multiprocessing.get_context('fork')
+    pending = list(idxs)
+    running = {}
+    results = {}
+    while pending or running:
+        while pending and len(running) < jobs:
+            i = pending.pop(0)
+            pc, cc = ctxm.Pipe(duplex=False)
+            p = ctxm.Process(target=_child, args=(cc, prop, i))
+            p.start()
+            cc.close()
+            running[i] = (p, pc, time.time())
+        for i, (p, pc, t0) in list(running.items()):
+            if pc.poll(0.02):
+                try:
+                    results[i] = pc.recv()
+                except EOFError:
+                    results[i] = None
+                p.join()
+                del running[i]
+            elif not p.is_alive():
+                results[i] = None
+                del running[i]
+            elif time.time() - t0 > limit:
+                p.kill()
+                p.join()
+                results[i] = 'timeout'
+                del running[i]
+    out = []
+    for i in idxs:
+        r = results.get(i)
+        if r is None or r == 'timeout':
+            why = ('harness killed after the hard limit of %d s (solver ignored its timeout)' % limit) if r == 'timeout' else 'harness process died without a result'
+            r = {'harness': hs[i].name, 'prop': prop, 'obligations': {}, 'covers': {}, 'undecided': [why], 'errors': [] if results.get(i) == 'timeout' else [why],
+                 'paths': 0, 'wall': limit if results.get(i) == 'timeout' else 0, 'functions': {}, 'assumptions': [], 'notes': [], 'kind': 'proof', 'aborted_paths': 0, 'doc': ''}
+        out.append(r)
+    return out
+
+
 def load_known():
     p = os.path.join(VERIF, 'known_findings.json')
     if not os.path.exists(p):
@@ -94,10 +146,8 @@ def main(argv=None):
         print('CHECKER-ERROR property=%s no harnesses registered' % prop)
         return 3
     idxs = [i for i, h in enumerate(hs) if not a.only or a.only in h.name]
-    if a.jobs > 1 and len(idxs) > 1:
-        ctxm = multiprocessing.get_context('fork')
-        with ctxm.Pool(min(a.jobs, len(idxs))) as pool:
-            results = pool.map(_run_one, [(prop, i) for i in idxs], chunksize=1)
+    if a.jobs > 1:
+        results = _run_watchdog(prop, idxs, hs, a.jobs, HARD_LIMIT_S[a.tier if a.tier in HARD_LIMIT_S else 'quick'])
     else:
         results = [_run_one((prop, i)) for i in idxs]
 
